@@ -22,6 +22,9 @@ var envVals = map[string]string{
 	"VERIF_C10_B": "two words",
 	"VERIF_C10_C": "c:8080/x",
 	"VERIF_C10_E": "",
+	// a value that contains its own placeholder: it is a value like any other
+	// and is inserted as it is
+	"VERIF_C10_S": "self-{$VERIF_C10_S}-ref",
 	// VERIF_C10_U is never set
 }
 
@@ -154,13 +157,29 @@ func quote(s string) string {
 // mkTok builds a token whose source contains placeholders; want is src with
 // the placeholders substituted.
 func substEnv(s string) string {
-	for k, v := range envVals {
-		s = strings.ReplaceAll(s, "{$"+k+"}", v)
-		s = strings.ReplaceAll(s, "{%"+k+"%}", v)
+	// one pass from left to right; inserted values are not looked at again
+	var out strings.Builder
+	for i := 0; i < len(s); {
+		matched := false
+		for _, form := range [][2]string{{"{$", "}"}, {"{%", "%}"}} {
+			if strings.HasPrefix(s[i:], form[0]+"VERIF_C10_") {
+				if j := strings.Index(s[i:], form[1]); j > 0 {
+					name := s[i+len(form[0]) : i+j]
+					if v, ok := envVals[name]; ok || name == "VERIF_C10_U" {
+						out.WriteString(v)
+						i += j + len(form[1])
+						matched = true
+						break
+					}
+				}
+			}
+		}
+		if !matched {
+			out.WriteByte(s[i])
+			i++
+		}
 	}
-	s = strings.ReplaceAll(s, "{$VERIF_C10_U}", "")
-	s = strings.ReplaceAll(s, "{%VERIF_C10_U%}", "")
-	return s
+	return out.String()
 }
 
 func (g *gen) write(content string) tok {
@@ -203,7 +222,7 @@ func (g *gen) argTok() tok {
 		return g.write("{ brace } { " + r.Pick(words))
 	case 6:
 		g.feats["env"] = true
-		return g.write(r.Pick([]string{"{$VERIF_C10_A}", "{%VERIF_C10_A%}", "{$VERIF_C10_B}", "{$VERIF_C10_C}", "{$VERIF_C10_E}", "{$VERIF_C10_U}"}))
+		return g.write(r.Pick([]string{"{$VERIF_C10_A}", "{%VERIF_C10_A%}", "{$VERIF_C10_B}", "{$VERIF_C10_C}", "{$VERIF_C10_E}", "{$VERIF_C10_U}", "{$VERIF_C10_S}"}))
 	case 7:
 		g.feats["env"] = true
 		return g.write("pre-" + r.Pick([]string{"{$VERIF_C10_A}", "{%VERIF_C10_C%}", "{$VERIF_C10_U}"}) + "/post")
